@@ -54,7 +54,7 @@ def showOutcome : Outcome → String
   | .panic => "panic"
 
 /-- which version of `decode_and_verify_responses` the tree contains -/
-def FIXED : Bool := false
+def FIXED : Bool := true
 
 def step (_ : Unit) (line : String) : Unit × String :=
   let ws := words line
